@@ -64,6 +64,8 @@ func allPathsPass(a, b, via ssa.Instruction) bool {
 }
 
 func runC14(p *Prog, r *Report) {
+	condWakersComplete(p, r, "C14.8/wakers-complete", func(rel string) bool { return strings.HasPrefix(rel, "protocol/") || rel == "internal/core" || strings.HasPrefix(rel, "transport") })
+	r.Floor("C14.8/wakers-complete", "e4c.list_growths_with_waiters", 3)
 	q := NewQ(p, r)
 	R := "C14.1/closed-stops"
 	r.Describe(R, "dial never calls the transport once closed; Close stops the pending redial timer and sets closed")
